@@ -55,6 +55,8 @@ type verifC12Exec struct {
 	bad       []string
 	bothHeld  bool
 	contended bool
+	// removeAbandoned: a lock-file removal was stalled beyond the 1-minute grace period of unlock and given up
+	removeAbandoned bool
 }
 
 func verifC12LockFiles(store *gatebe.Store) int { return len(store.Keys(backend.LockFile)) }
@@ -63,7 +65,7 @@ func TestVerif_C12(t *testing.T) {
 	r := vh.Start(t, "C12")
 	defer r.Finish()
 	r.Rule("GATE, 2-3 processes running the real LockRepo / Unlock (and RemoveStaleLocks, crash) over one shared gated store; all interleavings of their lock-file backend operations and of time passing, within the preemption bound. non-trivial = execution in which two processes had both created their lock file before either finished its re-check, or in which both held (shared) locks at the same time. states = distinct complete schedules.")
-	r.Assume("one clock (zero skew): all processes share the bubble's virtual clock", "a backend operation takes effect atomically when the scheduler releases it; listings are immediately consistent", "processes interact only through the backend", "no operation stalls longer than 5 minutes while pending (the statement excludes stalls beyond the staleness margin)")
+	r.Assume("one clock (zero skew): all processes share the bubble's virtual clock", "a backend operation takes effect atomically when the scheduler releases it; listings are immediately consistent except in the list-delay scenarios (new files listed 100 ms after upload)", "processes interact only through the backend", "no operation stalls longer than 5 minutes while pending (the statement excludes stalls beyond the staleness margin)")
 	ctx := context.Background()
 	oracle.LowKDF()
 	_, store0, err := oracle.NewRepo(ctx, 2, repository.Options{})
@@ -73,20 +75,24 @@ func TestVerif_C12(t *testing.T) {
 	base := store0.Snapshot()
 
 	type scen struct {
-		name  string
-		procs []verifC12Proc
+		name      string
+		procs     []verifC12Proc
+		listDelay time.Duration
 	}
 	scens := []scen{
-		{"excl-vs-excl", []verifC12Proc{{name: "P1", exclusive: true, role: "locker"}, {name: "P2", exclusive: true, role: "locker"}}},
-		{"excl-vs-shared", []verifC12Proc{{name: "P1", exclusive: true, role: "locker"}, {name: "P2", exclusive: false, role: "locker"}}},
-		{"shared-vs-excl", []verifC12Proc{{name: "P1", exclusive: false, role: "locker"}, {name: "P2", exclusive: true, role: "locker"}}},
-		{"shared-vs-shared", []verifC12Proc{{name: "P1", exclusive: false, role: "locker"}, {name: "P2", exclusive: false, role: "locker"}}},
+		{"excl-vs-excl", []verifC12Proc{{name: "P1", exclusive: true, role: "locker"}, {name: "P2", exclusive: true, role: "locker"}}, 0},
+		{"excl-vs-shared", []verifC12Proc{{name: "P1", exclusive: true, role: "locker"}, {name: "P2", exclusive: false, role: "locker"}}, 0},
+		{"shared-vs-excl", []verifC12Proc{{name: "P1", exclusive: false, role: "locker"}, {name: "P2", exclusive: true, role: "locker"}}, 0},
+		{"shared-vs-shared", []verifC12Proc{{name: "P1", exclusive: false, role: "locker"}, {name: "P2", exclusive: false, role: "locker"}}, 0},
+		// eventually consistent listing: a new lock file shows up in listings 100 ms (< the 200 ms re-check wait) after its upload
+		{"excl-vs-shared/list-delay-100ms", []verifC12Proc{{name: "P1", exclusive: true, role: "locker"}, {name: "P2", exclusive: false, role: "locker"}}, 100 * time.Millisecond},
 	}
 	if r.Thorough() {
 		scens = append(scens,
-			scen{"excl-excl-shared", []verifC12Proc{{name: "P1", exclusive: true, role: "locker"}, {name: "P2", exclusive: true, role: "locker"}, {name: "P3", exclusive: false, role: "locker"}}},
-			scen{"crasher-excl-unlocker", []verifC12Proc{{name: "P1", exclusive: true, role: "crasher"}, {name: "P2", exclusive: true, role: "locker"}, {name: "P3", role: "unlocker"}}},
-			scen{"crasher-shared-excl", []verifC12Proc{{name: "P1", exclusive: false, role: "crasher"}, {name: "P2", exclusive: true, role: "locker"}, {name: "P3", role: "unlocker"}}},
+			scen{"excl-excl-shared", []verifC12Proc{{name: "P1", exclusive: true, role: "locker"}, {name: "P2", exclusive: true, role: "locker"}, {name: "P3", exclusive: false, role: "locker"}}, 0},
+			scen{"excl-vs-excl/list-delay-100ms", []verifC12Proc{{name: "P1", exclusive: true, role: "locker"}, {name: "P2", exclusive: true, role: "locker"}}, 100 * time.Millisecond},
+			scen{"crasher-excl-unlocker", []verifC12Proc{{name: "P1", exclusive: true, role: "crasher"}, {name: "P2", exclusive: true, role: "locker"}, {name: "P3", role: "unlocker"}}, 0},
+			scen{"crasher-shared-excl", []verifC12Proc{{name: "P1", exclusive: false, role: "crasher"}, {name: "P2", exclusive: true, role: "locker"}, {name: "P3", role: "unlocker"}}, 0},
 		)
 	}
 	bound := vh.Pick(r, 2, 3)
@@ -101,7 +107,7 @@ func TestVerif_C12(t *testing.T) {
 					pp := &p
 					st.procs = append(st.procs, pp)
 					armed := false
-					pp.be = &gatebe.Backend{S: st.store, Proc: pp.name, Conns: 2, AtomicReplace: true,
+					pp.be = &gatebe.Backend{S: st.store, Proc: pp.name, Conns: 2, AtomicReplace: true, ListDelay: sc.listDelay,
 						X: func() *xplore.Exec {
 							if armed {
 								return x
@@ -110,6 +116,11 @@ func TestVerif_C12(t *testing.T) {
 						},
 						// only lock files matter here
 						Filter: func(op *gatebe.Op) bool { return op.Key.Type == backend.LockFile },
+					}
+					pp.be.Observe = func(op *gatebe.Op, ans string, err error) {
+						if op.Kind == "Remove" && ans == "cancelled" {
+							st.removeAbandoned = true
+						}
 					}
 					repo, err := oracle.OpenOn(x.Ctx, pp.be, repository.Options{})
 					if err != nil {
@@ -175,7 +186,7 @@ func TestVerif_C12(t *testing.T) {
 						crashed = true
 					}
 				}
-				if n := verifC12LockFiles(st.store); n > 0 && !crashed {
+				if n := verifC12LockFiles(st.store); n > 0 && !crashed && !st.removeAbandoned {
 					st.bad = append(st.bad, fmt.Sprintf("leftover: %d lock file(s) remain after every process unlocked or gave up", n))
 				}
 			}
@@ -191,7 +202,21 @@ func TestVerif_C12(t *testing.T) {
 				case strings.HasPrefix(st.bad[0], "panic"):
 					kind = "panic"
 				}
-				vx.Violation(r, sc.name, x, "C12|"+kind+"|"+sc.name, strings.Join(st.bad, "\n"), nil)
+				key := "C12|" + kind + "|" + sc.name
+				if kind == "conflicting-holders" && sc.listDelay > 0 {
+					// with an eventually consistent listing, a refresh (upload replacement, remove old file) opens a
+					// window of the listing delay in which NO lock file of the holder is listed
+					refreshed := false
+					for _, k := range x.Trace {
+						if strings.Contains(k, ":Save:lock#2") {
+							refreshed = true
+						}
+					}
+					if refreshed {
+						key = "C12|conflicting-holders|list-delay|re-check-falls-into-refresh-window"
+					}
+				}
+				vx.Violation(r, sc.name, x, key, strings.Join(st.bad, "\n"), nil)
 			}
 			if len(x.Trace) > 12 && st.contended {
 				r.Sample(map[string]any{"scenario": sc.name, "events": x.Labels[:12], "outcome": out})
